@@ -561,6 +561,14 @@ func (env *Env) elabCall(e *SCall) Val {
 				}
 				v.GoT = t
 				return v
+			case "bstr":
+				// bstr(b): the string spelled by the bytes of the []byte value b
+				a := args()
+				if len(a) != 1 || a[0].S.K != KSlice {
+					elabFail("bstr([]byte)")
+				}
+				env.strs = true
+				return Val{T: ex.bstr(a[0]), S: SString}
 			case "allocated":
 				// allocated(x): the reference x denotes an object that exists in the current state
 				a := args()
@@ -1051,7 +1059,9 @@ func (ex *Exec) callbackApp(fv Val, name string, sig *types.Signature, args []Va
 	for i := 0; i < sig.Results().Len(); i++ {
 		rt := sig.Results().At(i).Type()
 		rs := ex.sortOf(rt)
-		fn := fmt.Sprintf("cb_%s_%d_%s_%s", sanitize(name), i, sanitize(strings.Join(sorts[1:], "_")), sanitize(rs.Name))
+		// one symbol per signature: the function VALUE is the first argument, so the same value gives the same
+		// function whichever parameter or field it was passed through
+		fn := fmt.Sprintf("cb_%d_%s_%s", i, sanitize(strings.Join(sorts[1:], "_")), sanitize(rs.Name))
 		ex.declare(fmt.Sprintf("(declare-fun %s (%s) %s)", fn, strings.Join(sorts, " "), rs.Name))
 		out = append(out, Val{T: app(fn, terms...), S: rs, GoT: rt})
 	}
